@@ -154,6 +154,11 @@ struct StaticStateTask : Task { Arr2 r;
     void execute(size_t start, size_t end) override { static int calls = 0; for (size_t i = start; i < end; ++i) { r[i] = calls; } calls = calls + 1; } };
 struct PythonTask : Task { Arr2 r;
     void execute(size_t start, size_t end) override { for (size_t i = start; i < end; ++i) { r[i] = 0; } PyErr_SetString(nullptr, "x"); } };
+// dispatch_bad: the range goes to the pool and is then run inline as well; dispatch_good: one or the other
+struct WorkerPool { virtual ~WorkerPool() {} virtual void dispatch(Task &task, size_t length) = 0; virtual bool inWorkerThread() const = 0; static WorkerPool *currentPool(); };
+inline void dispatchTask_bad(Task &task, size_t length) { WorkerPool *p = WorkerPool::currentPool(); if (length > 200 && p && !p->inWorkerThread()) p->dispatch(task, length); task.execute(0, length); }
+inline void dispatchTask_good(Task &task, size_t length) { WorkerPool *p = WorkerPool::currentPool(); if (length > 200 && p && !p->inWorkerThread()) { p->dispatch(task, length); return; } task.execute(0, length); }
+inline void run_dispatch_examples(Task &t) { dispatchTask_bad(t, 1); dispatchTask_good(t, 1); }
 inline void run_good(FixedArray<int> &r, const FixedArray<int> &a) { size_t len = r.match_dimension(a); GoodTask t(r, a); dispatchTask(t, len); }
 inline void run_bad(FixedArray<int> &r, const FixedArray<int> &a) { size_t len = r.len(); GoodTask t(r, a); dispatchTask(t, len); }
 inline void run_others(FixedArray<int> &r) { IgnoresStartTask t(r); dispatchTask(t, r.len()); NeighbourTask n; DisjointTask d; PythonTask p; ScratchTask s1; ScratchOkTask s2; StaticStateTask ss; ss.execute(0, 1); n.execute(0, 1); d.execute(0, 1); p.execute(0, 1); s1.execute(0, 1); s2.execute(0, 1); }
